@@ -69,6 +69,7 @@ THEOREMS = [
     "Pyribs.C09.unseeded_site_interferes",
     "Pyribs.C09.spawn_check_sensitive",
     "Pyribs.C09.entropy_only_collapses_siblings",
+    "Pyribs.C09.escaped_seed_not_seeded",
 ]
 TECHNIQUE = ("Lean 4 proof of non-interference over an abstract trace/program semantics of random sites + "
              "AST translator regenerating the site table on every run (decide over the generated table) + "
@@ -1031,7 +1032,7 @@ def strata(ctx):
         kw_i[0] += 1
         kw = rng.choice([k for k in ES_KWARGS[es] if k or es != "pycma_es"])
         kind = rng.choice(["es", "es", "ga"])
-        n_iter = rng.randint(4, 6 * L)
+        n_iter = rng.randint(3, 5 * L)
         c = base_case(rng, n_iter)
         c["archive"] = archive_spec(rng, rng.choice(["grid", "grid", "cvt"]))
         n = rng.randint(2, 3)
@@ -1101,6 +1102,12 @@ def signature(case, fail):
         return (label, case["archive"]["kind"], case["archive"].get("method"))
     if "global random state disturbed" in label:
         return (label,)
+    if "es_kwargs dict was modified" in label:
+        return ("es_kwargs modified", tuple(sorted({e.get("es", "") for e in case["emitters"]
+                                                    if e.get("eskw") is not None})))
+    if "ONE shared es_kwargs dict" in label:
+        return ("shared es_kwargs", tuple(sorted({e.get("es", "") for e in case["emitters"]
+                                                  if e.get("eskw") is not None})))
     if "changed nothing it draws" in label:  # run (iii): the kind of the component whose seed was changed
         ch = case.get("change", 0) % (len(case["emitters"]) + 1)
         who = case["archive"]["kind"] if ch == 0 else case["emitters"][ch - 1]["kind"]
